@@ -13,6 +13,7 @@ import (
 )
 
 var verifDir = "/verif"
+var noDomain = os.Getenv("SYMGO_NODOMAIN") != ""
 
 func main() {
 	debug.SetMaxStack(2 << 30)
